@@ -1,11 +1,11 @@
 """C04 — see DESIGN.md §7."""
 from ._write_common import run_common
+from ..core import modules_for
 
 
 def run(ctx):
     q = ctx.tier == "quick"
-    run_common(ctx, "C04", ["SfProps.C04", "SfProps.C04Caf", "SfProps.C04W64", "SfProps.C04Aiff", "SfProps.C04Wavex", "SfProps.C04Rf64"], stride=2 if q else 1, l1_scripts=250 if q else 2500)
-    run_common(ctx, "C04", ["SfProps.C04", "SfProps.C04Caf", "SfProps.C04W64", "SfProps.C04Aiff", "SfProps.C04Htk", "SfProps.C04Wve", "SfProps.C04Mpc2k", "SfProps.C04Pvf", "SfProps.C04Mat4"], stride=2 if q else 1, l1_scripts=250 if q else 2500)
+    run_common(ctx, "C04", modules_for("C04"), stride=2 if q else 1, l1_scripts=250 if q else 2500)
     if not getattr(ctx, "replay", None):
         from .. import cafw64
         cafw64.campaign(ctx)      # CAF / W64 byte-exact container models (lean/SfModel/Caf.lean, W64.lean)
